@@ -128,6 +128,9 @@ func roots(tier string) []world.Root {
 		for _, tr := range []string{"manual", "msg"} {
 			out = append(out, world.Root{Flows: &loc[i], Assets: a, Trigger: tr, Contact: spa, Opt: world.Options{MaxSteps: 8}})
 		}
+		// the host's clock reports its instants in a zone other than UTC: what a live run holds and
+		// what a re-read run holds must render alike (@run.created_on and friends are dumped raw)
+		out = append(out, world.Root{Flows: &loc[i], Assets: a, Trigger: "manual", Contact: spa, Opt: world.Options{MaxSteps: 8}, ClockZone: "America/Bogota"})
 	}
 	return out
 }
